@@ -1,48 +1,16 @@
-"""Per-property configuration of the check pipeline."""
+"""Per-property configuration: every tools/props/Cxx.py defines CONFIG (pipeline) and MANIFEST (texts)."""
+import importlib.util
+import os
 
-RECORDIO_H = {'name': 'recordio', 'srcs': ['harness/h_recordio.cc']}
-
-PROPS = {
-    'C01': {
-        'subs': ['RecordIO'],
-        'props_modules': ['DmlcModel.Props.C01', 'DmlcModel.Props.C01Witness'],
-        'driver': 'RecordIO',
-        'harness': dict(RECORDIO_H, args=['--prop', 'C01']),
-        'rule': 'cases = record sequences (exhaustive over a magic-centred word alphabet x tail 0-3 for <=3 words, '
-                'all sequences of <=3 records over a 7-record set, random magic-laden sequences, long records, '
-                'malformed streams); a case is non-trivial when it writes at least one record; distinct = distinct '
-                'hash of the op list',
-        'assumptions': ['little-endian host', 'MemoryStringStream::Write appends exactly the bytes given (C19)'],
-        'trusted_base': ['modelled by hand, tied by correspondence only: control flow of WriteRecord / NextRecord'],
-    },
-    'C02': {
-        'subs': ['RecordIO'],
-        'props_modules': ['DmlcModel.Props.C02'],
-        'driver': 'RecordIO',
-        'harness': dict(RECORDIO_H, args=['--prop', 'C02']),
-        'rule': 'cases as C01 plus, per case, a scan from every aligned offset and every chunk-reader part k of n for '
-                'n = 1..words+2 (capped at 14); non-trivial = at least one record written',
-        'assumptions': ['little-endian host', 'chunks are whole-record images'],
-        'trusted_base': ['modelled by hand, tied by correspondence only: control flow of FindNextRecordIOHead / RecordIOChunkReader'],
-    },
-}
-
+HERE = os.path.dirname(os.path.abspath(__file__))
+PROPS = {}
+MANIFEST_TEXT = {}
 NOT_APPLICABLE = []
 
-MANIFEST_TEXT = {
-    'C01': {
-        'text': 'Lean 4 theorems over an executable model of WriteRecord/NextRecord (round trip for every record list, '
-                'length multiple of 4, exception counter, size limit), model arithmetic regenerated from the source each run, '
-                'model tied to the code by differential execution on structured cases; independent oracle on the implementation.',
-        'design_ref': 'DESIGN.md section 7 C01',
-        'note': 'Trusted: Lean kernel, translator, correspondence on sampled cases only; control flow hand-modelled; little-endian host.',
-        'technique': 'Lean 4 proof (induction over the writer loop) + translator + differential correspondence',
-    },
-    'C02': {
-        'text': 'Lean 4 theorems over the model of FindNextRecordIOHead / RecordIOChunkReader on writer-produced streams; '
-                'model tied to the code by differential execution incl. every aligned scan offset and every part count.',
-        'design_ref': 'DESIGN.md section 7 C02',
-        'note': 'Trusted: Lean kernel, translator, correspondence on sampled cases only; chunks are whole-record images.',
-        'technique': 'Lean 4 proof + translator + differential correspondence',
-    },
-}
+for _f in sorted(os.listdir(os.path.join(HERE, 'props'))):
+    if _f.endswith('.py') and not _f.startswith('_'):
+        _spec = importlib.util.spec_from_file_location('prop_' + _f[:-3], os.path.join(HERE, 'props', _f))
+        _m = importlib.util.module_from_spec(_spec)
+        _spec.loader.exec_module(_m)
+        PROPS[_f[:-3]] = _m.CONFIG
+        MANIFEST_TEXT[_f[:-3]] = _m.MANIFEST
